@@ -47,7 +47,7 @@ func (p *FloatingIPPlugin) UpdatePod(oldPod, newPod *corev1.Pod) error {
 		p.unreleased <- &releaseEvent{pod: newPod}
 		return nil
 	}
-	if err := p.syncPodIP(newPod); err != nil {
+	if err := p.syncPodIP(newPod, false); err != nil {
 		glog.Warningf("failed to sync pod ip: %v", err)
 	}
 	return nil
